@@ -36,7 +36,8 @@ PROPS['C01'] = {
     'level': 'exploration',
     'budget': {'quick': 75, 'thorough': 1500},
     'parts': [{'sim': 'transfer', 'share': 3, 'env': {'VERIF_ORACLES': 'C01'}},
-              {'sim': 'transfer', 'mode': 'sweep', 'share': 1, 'env': {'VERIF_ORACLES': 'C01'}}],
+              {'sim': 'transfer', 'mode': 'sweep', 'share': 1, 'env': {'VERIF_ORACLES': 'C01'}},
+              {'sim': 'sendstream', 'share': 0.6}, {'sim': 'sendstream', 'mode': 'sweep', 'share': 0.4}],
     'rule': 'seeded scenarios (client kind, version, CID lengths, windows, 1-40 streams with random chunkings, datagrams) x per-datagram fault schedules '
             '(drop/dup/delay/corrupt/trunc, outages, MTU black holes) drawn from the seed; plus a bounded sweep of single and paired faults over the first datagrams; '
             'non-trivial = at least one fault fired; distinct = distinct abstract wire traces (direction, packet types, frame kinds, fate per datagram)',
@@ -93,7 +94,8 @@ PROPS['C03'] = {
 }
 PROPS['C04'] = {
     'level': 'exploration', 'budget': {'quick': 70, 'thorough': 1200},
-    'parts': [{'sim': 'flowcontrol', 'share': 2}, {'sim': 'transfer', 'share': 2, 'env': {'VERIF_ORACLES': 'C04'}}],
+    'parts': [{'sim': 'flowcontrol', 'share': 2}, {'sim': 'transfer', 'share': 2, 'env': {'VERIF_ORACLES': 'C04'}},
+              {'sim': 'sendstream', 'share': 1}, {'sim': 'sendstream', 'mode': 'sweep', 'share': 0.5}],
     'rule': 'K:flowcontrol: seeded histories over real send- and receive-side controllers of 1-40 streams sharing a connection window, joined by a channel that loses, duplicates and reorders data and MAX_* updates, '
             'with reads, abandons, auto-tuning at RTTs from microseconds to seconds, 0-RTT reset and an adversarial sender; W:transfer: wiretap checks that new stream bytes never exceed the credit delivered to the sender; '
             'non-trivial = a fault fired; distinct = distinct abstract histories / wire traces',
